@@ -87,8 +87,8 @@ var fmtPools = map[string][]string{
 	"idcard":     {"123456789012345", "123456789012345678", "12345678901234567X", "12345678901234567x", "1234567890123456", "12345678901234567Y", "X23456789012345678"},
 	"year":       {"2022", "0000", "999", "20222", "abcd", "２０２２"},
 	"year2month": {"2022-11", "2022-13", "2022-1", "2022/11", "202211", "2022-00"},
-	"date":       {"2022-11-09", "2022-02-30", "2024-02-29", "2023-02-29", "2022/11/09", "2022-11-9", "20221109", "2022-11-09 ", "2022.11.09"},
-	"datetime":   {"2022-11-09 09:05:00", "2022-11-09 9:05:00", "2022-11-09 09:05:00.123", "2022-11-09 24:00:00", "2022-11-09 23:59:60", "2022/11/09 09:05:00", "2022-11-09T09:05:00", "2022-11-09 09:05", "2022-11-09  09:05:00"},
+	"date":       {"2022  11 09", "2022 11 09", "2022-11-09", "2022-02-30", "2024-02-29", "2023-02-29", "2022/11/09", "2022-11-9", "20221109", "2022-11-09 ", "2022.11.09"},
+	"datetime":   {"2022-11-09  9:05:00", "2022-11-09 09:05:00", "2022-11-09 9:05:00", "2022-11-09 09:05:00.123", "2022-11-09 24:00:00", "2022-11-09 23:59:60", "2022/11/09 09:05:00", "2022-11-09T09:05:00", "2022-11-09 09:05", "2022-11-09  09:05:00"},
 	"int":        {"0", "123", "007", "-1", "+1", "12a", "1.0", " 1", "١٢٣", "9999999999999999999999"},
 	"ints":       {"1,2,3", "1,2,", ",1", "1,,2", "1-2-3", "1, 2", "a,b", "10", "1/2/3"},
 	"float":      {"1.5", "0.0", "1x5", ".5", "1.", "1.5.5", "-1.5", "1e5", "15", "1．5"},
